@@ -292,6 +292,13 @@ func main() {
 	lib.Main(func(c lib.Case) (lib.Out, any) {
 		chunks := pkutil.Ints(c.L("chunks"))
 		switch c.S("kind") {
+		case "dec2":
+			o, v := decode2(c.S("msg"), pkutil.NewChunkReader(c.B("hex"), chunks))
+			return o, jv{"value": v}
+		case "rt2":
+			return rt2(c)
+		case "unitab":
+			return unitab(), nil
 		case "dec":
 			o, v := decode(c.S("msg"), pkutil.NewChunkReader(c.B("hex"), chunks))
 			return o, jv{"value": v}
